@@ -69,7 +69,7 @@ func (Prop) Assumptions() []string {
 var derivations = []string{"session", "session", "with_context", "debug", "begin"}
 var readFins = []string{"find", "find", "first", "take", "count", "pluck", "rows", "scan", "find_in_batches", "first_or_init"}
 var writeFins = []string{"update", "updates", "delete", "create"}
-var methods = []string{"where", "where", "where", "or", "not", "select", "omit", "order", "order", "limit", "offset", "group", "having", "joins", "joins", "distinct", "unscoped", "scopes", "preload", "returning", "returning", "order_clause", "locking", "on_conflict", "table", "model", "attrs", "assign", "where_sub"}
+var methods = []string{"where", "where", "where", "or", "not", "select", "omit", "order", "order", "limit", "offset", "group", "having", "joins", "joins", "distinct", "unscoped", "scopes", "preload", "returning", "returning", "order_clause", "locking", "on_conflict", "table", "model", "attrs", "assign", "where_sub", "from_clause", "group_clause", "limit_clause", "insert_modifier", "inner_joins", "select_expr", "omit_assoc"}
 
 func genStep(r *core.Rand, nHandles int, palette []string) Step {
 	st := Step{M: r.Pick(palette), V: r.Intn(6), S: fmt.Sprintf("s%d", r.Intn(50)), N: r.Intn(40)}
@@ -346,6 +346,26 @@ func apply(db *gorm.DB, st Step, handles []*gorm.DB) *gorm.DB {
 			return db.Clauses(clause.OnConflict{DoNothing: true})
 		}
 		return db.Clauses(clause.OnConflict{Columns: []clause.Column{{Name: "id"}}, DoUpdates: clause.AssignmentColumns(strs(st.L))})
+	case "from_clause":
+		joins := make([]clause.Join, 0, 4) // spare capacity: anything appended in place would be shared
+		joins = append(joins, clause.Join{Type: clause.LeftJoin, Table: clause.Table{Name: "companies"},
+			ON: clause.Where{Exprs: []clause.Expression{clause.Eq{Column: clause.Column{Table: "companies", Name: "id"}, Value: clause.Column{Table: "users", Name: "company_id"}}}}})
+		return db.Clauses(clause.From{Joins: joins})
+	case "group_clause":
+		cols := make([]clause.Column, 0, 4)
+		cols = append(cols, clause.Column{Name: st.L[0]})
+		return db.Clauses(clause.GroupBy{Columns: cols, Having: []clause.Expression{clause.Gt{Column: clause.Column{Name: "age"}, Value: st.N}}})
+	case "limit_clause":
+		n := 1 + st.N%5
+		return db.Clauses(clause.Limit{Limit: &n, Offset: st.N % 3})
+	case "insert_modifier":
+		return db.Clauses(clause.Insert{Modifier: "OR IGNORE"})
+	case "inner_joins":
+		return db.InnerJoins("Manager")
+	case "select_expr":
+		return db.Select("name, age + ? AS age", st.N)
+	case "omit_assoc":
+		return db.Omit(clause.Associations)
 	case "table":
 		return db.Table("users")
 	case "model":
